@@ -145,6 +145,9 @@ def run(ctx):
         try:
             os.makedirs(os.path.join(d, "lib"), exist_ok=True)
             files = [(fn, txt + (src_extra if i == 0 else "")) for i, (fn, txt) in enumerate(files)]
+            if rng.random() < 0.3:
+                # a stated load address, also at the ends of the range (the listing, the image and its header must agree)
+                files[0] = (files[0][0], rng.choice([".link 0\n", ". = 0\n", ".link 2\n", ".link 40000\n", ".link 100000\n"]) + files[0][1])
             for fn, txt in files:
                 with open(os.path.join(d, fn), "w", encoding="utf-8") as f:
                     f.write(txt)
